@@ -429,6 +429,24 @@ theorem c07_ra_range_uniform (lo hi u : ℝ) (h : lo < hi) (hu0 : 0 ≤ u) (hu1 
   unfold uniformRA
   constructor <;> nlinarith
 
+/-- the same for any configured range `lo ≤ hi` — no assumption that it lies inside `[0, 2π)`: ranges straddling 0 or
+2π, entirely below 0 or above 2π, and zero-width ranges (`lo = hi`, every event gets `lo`) — closed form with
+`u ∈ [0, 1]`, which also covers the value after rounding `u` up -/
+theorem c07_ra_range_uniform_closed (lo hi u : ℝ) (h : lo ≤ hi) (hu0 : 0 ≤ u) (hu1 : u ≤ 1) :
+    lo ≤ uniformRA lo hi u ∧ uniformRA lo hi u ≤ hi := by
+  unfold uniformRA
+  constructor <;> nlinarith
+
+/-- wrapping the drawn value into `[0, 2π)` (a seeded mutant of the code) leaves the configured range as soon as the
+range reaches below 0: witness range `(-2/5, 2/5)`, deviate `u = 1/4`, drawn RA `-1/5`, wrapped RA `2π - 1/5 > 2/5` -/
+example : uniformRA (-2 / 5 : ℝ) (2 / 5) (1 / 4) = -1 / 5 ∧ (2 / 5 : ℝ) < (-1 / 5) + 2 * Real.pi := by
+  refine ⟨by unfold uniformRA; norm_num, ?_⟩
+  have := Real.two_le_pi
+  linarith
+
+example : (-2 / 5 : ℝ) ≤ uniformRA (-2 / 5) (2 / 5) (1 / 4) ∧ uniformRA (-2 / 5 : ℝ) (2 / 5) (1 / 4) ≤ 2 / 5 :=
+  c07_ra_range_uniform_closed _ _ _ (by norm_num) (by norm_num) (by norm_num)
+
 /-- numpy's `mod` (floored) -/
 noncomputable def C07.npMod (x m : ℝ) : ℝ := x - m * ⌊x / m⌋
 
